@@ -1,4 +1,5 @@
 import Driver.Util
+import Driver.TirJson
 import Tx3Model.Resolve
 import Tx3Model.Conway
 import Tx3Model.CompilerOps
@@ -38,6 +39,15 @@ def bodyFee (payload : Bytes) : Option Int := (Conway.readTx payload).map fun (a
 def judgeC05 (j : Json) : R Verdict := do
   let i ← nat (← field j "i")
   let gen ← str (← field j "gen")
+  -- every place of the template that asks for the fee gets the very same fee: the real `apply_fees` against
+  -- "replace every fee placeholder by the fee" (the model's `applyFees` is exactly that)
+  if (fieldD j "probe").compress == "\"apply-fees\"" then
+    let tx ← parseTx (← field j "tx")
+    let fee ← int (← field j "fee")
+    let obs ← field j "obs"
+    let same ← sameOutcome (← field obs "after") (.ok (tx.applyFees fee))
+    let spec := if same then [] else ["FeeOK:a-threshold-is-not-computed-with-the-fee"]
+    return { i, corr := spec, spec, key := fnv ((fieldD j "tx").compress ++ toString fee), tags := [gen], nt := true }
   let a ← int (← field j "a")
   let b ← int (← field j "b")
   let margin ← int (← field j "margin")
